@@ -1236,6 +1236,9 @@ class Interp:
             # a store into an unknown object changes no tracked state (also inside speculatively executed branches)
             self.ctx.log_opaque.append(f"setitem on {obj.why} ignored")
             return
+        if self.ctx.merge_mode and getattr(obj, "mergeable_store", False):
+            obj.sym_setitem(self, key, val)      # guards its own store by the branch conditions (or raises CannotMerge)
+            return
         if self.ctx.merge_mode:
             if isinstance(obj, PDict) and not isinstance(key, (SV, Opaque)) and len(self.ctx.merge_guards) == self.ctx.merge_mode:
                 # store into a dict inside a speculatively executed branch: a guarded update (undone if the merge is abandoned)
